@@ -79,6 +79,8 @@ def f_solve(a):
     b = R.chart()
     for j, w in a["b"]:
         b[node(st, j)] = dec_w(R, w)
+    for side in a.get("before", ()):            # earlier solves with the SAME right-hand-side object
+        G.solve_left(b) if side == "left" else G.solve_right(b)
     x = G.solve_left(b) if a["side"] == "left" else G.solve_right(b)
     return {"op": "solve", "sr": srmodel(a["sr"]), "A": a["A"], "b": a["b"], "side": a["side"],
             "x": [[inv[j], enc_w(R, w)] for j, w in x.items() if w != R.zero]}
